@@ -16,9 +16,24 @@ PREFIX = '/obj/v1'
 LIFETIME = 100
 
 
+def variant(cfg):
+    """Dimensions SegFetch abstracts from (the model's behaviour does not depend on them), varied deterministically
+    with the configuration: which Data packets carry the FinalBlockId (the fetcher must read the marker of the segment it
+    just received: a real producer usually marks only the last segment), one empty segment, arguments left to their
+    defaults, the representation of the name argument."""
+    h = cfg['n'] * 7 + cfg['disc'] * 3 + cfg['retry'] + (cfg['fin'] + 1) * 5 + (1 if cfg.get('deep') else 0)
+    return {'mark': ('all', 'last', 'tail')[h % 3],                    # FinalBlockId on every Data / only on the final one / on the last two
+            'empty': (h // 3) % 4 == 1,                                  # the segment n-1 (or the whole object) has empty content
+            'default_retry': cfg['retry'] == 3 and (h // 2) % 2 == 0,     # retry_times omitted (default 3)
+            'default_timeout': (h // 5) % 5 == 2,                        # timeout omitted (default 4000 ms)
+            'name_repr': ('str', 'list', 'wire')[(h // 7) % 3]}
+
+
 class Scenario:
     def __init__(self, cfg):
         self.cfg = cfg
+        self.var = variant(cfg)
+        self.lifetime = 4000 if self.var['default_timeout'] else LIFETIME
         self.sess = Session()
         self.sess.__enter__()
         self.app, self.face = new_app('legacy')
@@ -38,10 +53,8 @@ class Scenario:
 
         async def consume():
             try:
-                async for c in segment_fetcher(self.app, PREFIX, timeout=LIFETIME, retry_times=cfg['retry'],
-                                               validator=validator):
-                    b = bytes(c)
-                    self.yielded.append(-2 if b == b'W' else int(b[1:]))
+                async for c in segment_fetcher(self.app, self.name_arg(), validator=validator, **self.fetch_kw()):
+                    self.yielded.append(self.decode_content(c))
             except ndn_types.InterestTimeout:
                 self.err = 'timeout'
             except ndn_types.InterestNack:
@@ -56,6 +69,34 @@ class Scenario:
 
     def close(self):
         self.sess.__exit__(None, None, None)
+
+    def fetch_kw(self):
+        kw = {}
+        if not self.var['default_timeout']:
+            kw['timeout'] = LIFETIME
+        if not self.var['default_retry']:
+            kw['retry_times'] = self.cfg['retry']
+        return kw
+
+    def name_arg(self):
+        r = self.var['name_repr']
+        if r == 'list':
+            return enc.Name.from_str(PREFIX)
+        if r == 'wire':
+            return enc.Name.to_bytes(PREFIX)
+        return PREFIX
+
+    def content_of(self, s):
+        """content of segment s (-2: the unsegmented object)"""
+        if self.var['empty'] and (s == -2 or s == self.cfg['n'] - 1):
+            return b''
+        return b'W' if s == -2 else b'S%d' % s
+
+    def decode_content(self, c):
+        b = bytes(c) if c is not None else b''
+        if b == b'':
+            return -2 if not self.cfg['seg'] else self.cfg['n'] - 1
+        return -2 if b == b'W' else int(b[1:])
 
     # -- observation
     def new_interests(self):
@@ -89,14 +130,15 @@ class Scenario:
         cfg = self.cfg
         if target == -1:
             if not cfg['seg']:
-                return enc.make_data(PREFIX, enc.MetaInfo(), b'W')
+                return enc.make_data(PREFIX, enc.MetaInfo(), self.content_of(-2))
             s = cfg['disc']
         else:
             s = target
-        mi = enc.MetaInfo()
-        if cfg['fin'] >= 0:
+        mi = enc.MetaInfo(freshness_period=1000)
+        mark = self.var['mark']
+        if cfg['fin'] >= 0 and (mark == 'all' or s == cfg['fin'] or (mark == 'tail' and s == cfg['fin'] - 1)):
             mi.final_block_id = enc.Component.from_segment(cfg['fin'])
-        return enc.make_data(self.base() + [enc.Component.from_segment(s)], mi, b'S%d' % s)
+        return enc.make_data(self.base() + [enc.Component.from_segment(s)], mi, self.content_of(s))
 
     def respond(self, act, last):
         if act == 'RespData':
@@ -108,7 +150,7 @@ class Scenario:
             self.nacks = getattr(self, 'nacks', 0) + 1
             deliver(self.sess, self.face, enc.make_network_nack(last['wire'], (0, 50, 100, 150)[(self.nacks + last['t']) % 4]))
         elif act == 'RespLost':
-            self.sess.loop.advance_to(self.sess.loop.time() + LIFETIME / 1000.0)
+            self.sess.loop.advance_to(self.sess.loop.time() + self.lifetime / 1000.0)
         else:
             raise ValueError(act)
 
@@ -129,9 +171,8 @@ class PairScenario(Scenario):
 
         async def consume(i):
             try:
-                async for c in segment_fetcher(self.app, PREFIX, timeout=LIFETIME, retry_times=cfg['retry'], validator=validator):
-                    b = bytes(c)
-                    self.ys[i].append(-2 if b == b'W' else int(b[1:]))
+                async for c in segment_fetcher(self.app, self.name_arg(), validator=validator, **self.fetch_kw()):
+                    self.ys[i].append(self.decode_content(c))
             except ndn_types.InterestTimeout:
                 self.errs[i] = 'timeout'
             except ndn_types.InterestNack:
@@ -235,7 +276,7 @@ def replay_path(cfg, path):
                 want = seq(st['sent'])[-1]
                 if last['t'] != want['t'] or last['cbp'] != want['cbp']:
                     return 'step %d Send: Interest (t=%s,cbp=%s) but spec sent %s' % (k, last['t'], last['cbp'], dict(want))
-                if last['life'] != LIFETIME:
+                if last['life'] != sc.lifetime:
                     return 'step %d Send: lifetime %s' % (k, last['life'])
             else:
                 sc.respond(act, last)
